@@ -1689,7 +1689,8 @@ struct Reopen {
   cap: Option<u32>,
   magic: u16,
   freelist: u8,
-  create: bool,
+  /// 0 = neither, 1 = `with_create(true)`, 2 = `with_create_new(true)`, 3 = both
+  create: u8,
   sync: bool,
   reserved: u32,
   minseg: u32,
@@ -1736,8 +1737,10 @@ impl Reopen {
       magic: val(3, "magic")?.parse().ok()?,
       freelist: FREELISTS.iter().position(|x| *x == val(4, "freelist").unwrap_or(""))? as u8,
       create: match val(5, "create")? {
-        "0" => false,
-        "1" => true,
+        "0" => 0,
+        "1" => 1,
+        "2" => 2,
+        "3" => 3,
         _ => return None,
       },
       sync: match val(6, "flavour")? {
@@ -1833,8 +1836,11 @@ impl<A: Flavour> Case<A> {
         .with_offset(cfg.offset)
         .with_read(true)
         .with_write(true);
-      if r.create {
+      if r.create & 1 != 0 {
         o = o.with_create(true);
+      }
+      if r.create & 2 != 0 {
+        o = o.with_create_new(true);
       }
       if let Some(c) = r.cap {
         o = o.with_capacity(c);
@@ -1934,7 +1940,7 @@ impl Session {
           cap: None,
           magic: self.cfg.magic,
           freelist: self.cfg.freelist,
-          create: false,
+          create: 0,
           sync: self.cur_sync,
           reserved: self.cfg.reserved,
           minseg: self.cfg.minseg,
